@@ -21,7 +21,7 @@ RULE = ("agent parameter grids x market states (price histories built by real tr
 WIT = ["fcn_buy", "fcn_sell", "fcn_nothing", "fcn_inaccessible", "fcn_clock_below_window", "fcn_mean_reversion_distinct",
        "share_choice_0", "share_choice_1", "share_zero_volume", "mm_quotes", "mm_base_from_market_price", "mm_inaccessible_market_ignored",
        "mm_market_order_on_top", "arb_no_action_within_threshold", "arb_gap_exactly_threshold", "arb_buy_index", "arb_sell_index",
-       "arb_not_running", "arb_two_indices_acted", "arb_component_moved_between_consultations", "test_agent_cases", "fcn_normal_margin_cases", "well_formed_orders"]
+       "arb_not_running", "arb_two_indices_acted", "arb_component_moved_between_consultations", "test_agent_cases", "fcn_normal_margin_cases", "fcn_on_index_market", "well_formed_orders"]
 
 
 class Sim:
@@ -55,11 +55,22 @@ def trade(m, mid, p, v=1):
 # ------------------------------------------------------------------------------------------------ FCN
 
 
-def mk_hist_market(mid, hist, fund, sim=None, vols=None):
-    m = Market(mid, None, sim, "m%d" % mid)
-    m.setup({"tickSize": 0.125, "marketPrice": hist[0]})
+def mk_hist_market(mid, hist, fund, sim=None, vols=None, index_over=None):
+    if index_over is not None:
+        # the traded market is an index market; its own (stored) fundamental price is `fund`, whatever its components' are
+        sim = sim or Sim()
+        for c in index_over:
+            sim.name2market[c.name] = c
+        m = IndexMarket(mid, None, sim, "m%d" % mid)
+        m.setup({"tickSize": 0.125, "marketPrice": hist[0], "markets": [c.name for c in index_over]})
+    else:
+        m = Market(mid, None, sim, "m%d" % mid)
+        m.setup({"tickSize": 0.125, "marketPrice": hist[0]})
     m._is_running = True
     for i, p in enumerate(hist):
+        for c in (index_over or []):
+            if i > 0:
+                c._update_time(c.get_fundamental_price())  # components keep the index market's clock
         m._update_time(float(fund))
         v = 1 if vols is None else vols[i]
         if v:
@@ -166,6 +177,28 @@ def fcn_fn(case, wit):
                         raise Violation("C20.fcn_normal_margin", "an FCN agent in normal-margin mode does not buy exactly when its expected price exceeds the market price (quote = expected price + noise x margin)",
                                         "history %s fundamental %s weights (%s,%s,%s) noise %s window %s margin %s -> %r" % (hist, fund, wf, wc, wn, g, win, k, orders))
                     wit.inc("fcn_normal_margin_cases")
+    # the traded market is an index market whose components' fundamentals (x 1.25, x 0.5) differ from its own stored one:
+    # the strategy uses the traded market's own fundamental price
+    for scale in (1.25, 0.5):
+        sim2 = Sim()
+        comps = [mk_quote_market(sim2, 10 + i, fund * scale, "none", tr=100 + 4 * i) for i in range(2)]
+        mi = mk_hist_market(0, hist, fund, index_over=comps)
+        for (wf, wc, wn) in ((1, 0, 0), (3, 1, 0), (1, 1, 1)):
+            for ns, g, win, mr, k in ((0, 0.0, 2, None, 0), (2.0 ** -7, 2.0, 5, 4, 0.125), (2.0 ** -7, -2.0, 1, None, 0.5)):
+                a = FCNAgent(3, StubRandom(g=g), Sim(), "a")
+                st = {"cashAmount": 100, "assetVolume": 1, "fundamentalWeight": wf, "chartWeight": wc, "noiseWeight": wn,
+                      "noiseScale": ns, "timeWindowSize": win, "orderMargin": k}
+                if mr:
+                    st["meanReversionTime"] = mr
+                a.setup(st, [0])
+                orders = a.submit_orders([mi])
+                for o in orders:
+                    well_formed(o, a, wit)
+                p, r, ph = fcn_reference(mi, fund, wf, wc, wn, ns, g, win, mr)
+                tag = "INDEX market (components' fundamental %s) history %s fundamental %s weights (%s,%s,%s) noise %s x %s window %s mean-reversion %s margin %s" % (
+                    fund * scale, hist, fund, wf, wc, wn, ns, g, win, mr, k)
+                check_fcn_orders(orders, mi, p, r, ph, k, win, 0, wit, tag)
+                wit.inc("fcn_on_index_market")
     # not accessible: nothing
     a = FCNAgent(3, StubRandom(g=1.0), Sim(), "a")
     a.setup({"cashAmount": 100, "assetVolume": 1, "fundamentalWeight": 1, "chartWeight": 1, "noiseWeight": 1, "noiseScale": 0.01,
